@@ -40,7 +40,11 @@ func exprPosNodesShift(root ast.Node, d int) string {
 		for i := 0; i < t.NumField(); i++ {
 			f := t.Field(i)
 			if f.IsExported() && f.Type == posType {
-				fields = append(fields, fmt.Sprintf("%s=%d", f.Name, int(v.Field(i).Int())-d))
+				pv := int(v.Field(i).Int())
+				if pv >= 0 { // token.InvalidPos (an absent optional keyword) has no place to move
+					pv -= d
+				}
+				fields = append(fields, fmt.Sprintf("%s=%d", f.Name, pv))
 			}
 		}
 		fs := "-"
@@ -68,7 +72,7 @@ func safePosShift(f func() token.Pos, d int) string {
 }
 
 // exprC06: C06 (a) evaluated on the implementation for the nodes the Lean theorem covers (MF.Props.C06.expr_exact_partial):
-// every ast.Expr node of the tree except the Idents that are components of a Path or the field name of a SelectorExpr;
+// every ast.Expr node of the tree except the Idents that are components of a Path (or of the NamedType of a CAST) or the field name of a SelectorExpr;
 // the text s[Pos():End()] must be accepted by ParseExpr and give the same tree with all positions moved Pos() bytes to
 // the left (same node list, same shape).  Returns "1" or "0:<pos>:<end>" of the first node that fails.
 func exprC06(s string, root ast.Node) string {
@@ -81,7 +85,7 @@ func exprC06(s string, root ast.Node) string {
 		_, isExpr := n.(ast.Expr)
 		if _, isIdent := n.(*ast.Ident); isIdent && parent != nil {
 			switch parent.(type) {
-			case *ast.Path:
+			case *ast.Path, *ast.NamedType: // a component of a path / of the name of a type is not an expression of its own
 				isExpr = false
 			case *ast.SelectorExpr:
 				if field == "Ident" {
